@@ -886,9 +886,40 @@ impl Hash for DynObject {
     }
 }
 
+impl DynObject {
+    /// Renders the object but does not let a failure of the object itself through.
+    ///
+    /// The `render` method (and the `Debug` implementation behind its default) is code of
+    /// the host application.  If it fails although the formatter it writes to works,
+    /// `to_string()` and `format!()` on a value would panic.  Such an object renders as
+    /// whatever it managed to write; a failure of the formatter is still reported.
+    pub(crate) fn render_guarded(&self, f: &mut fmt::Formatter<'_>) -> fmt::Result {
+        struct Raw<'a>(&'a DynObject);
+
+        impl fmt::Display for Raw<'_> {
+            fn fmt(&self, f: &mut fmt::Formatter<'_>) -> fmt::Result {
+                self.0.render(f)
+            }
+        }
+
+        match self.render(f) {
+            Ok(()) => Ok(()),
+            Err(err) => {
+                // find out who failed: rendering into a string cannot fail because of the sink
+                let mut probe = String::new();
+                if fmt::write(&mut probe, format_args!("{}", Raw(self))).is_err() {
+                    Ok(())
+                } else {
+                    Err(err)
+                }
+            }
+        }
+    }
+}
+
 impl fmt::Display for DynObject {
     fn fmt(&self, f: &mut fmt::Formatter<'_>) -> fmt::Result {
-        self.render(f)
+        self.render_guarded(f)
     }
 }
 
